@@ -4,7 +4,7 @@ P="$1"; shift
 cd /verif
 git -C /repo apply "$P" || { echo "patch does not apply"; exit 2; }
 for id in "$@"; do
-  ./check "$id" quick > /tmp/try_seed.$$.out 2>&1; rc=$?
+  timeout 600 ./check "$id" quick > /tmp/try_seed.$$.out 2>&1; rc=$?
   echo "== $id rc=$rc"; grep -E "^(VIOLATION|KNOWN-FINDING|  key=|verif-machinery)" /tmp/try_seed.$$.out | head -8
 done
 rm -f /tmp/try_seed.$$.out
